@@ -400,7 +400,14 @@ func buildLinkEvent(graph *Graph, eventType, from, to string) (Event, error) {
 		if graph.Deps[from] == nil {
 			graph.Deps[from] = map[string]struct{}{}
 		}
+		_, had := graph.Deps[from][to]
 		graph.Deps[from][to] = struct{}{}
+		// The edge may also close a cycle that runs through epic dependencies
+		// (tasks wait for the children of the epics their epic depends on).
+		if !had && hasWaitsForCycle(graph) {
+			delete(graph.Deps[from], to)
+			return Event{}, errors.New("dependency would create a cycle (through epic dependencies)")
+		}
 	} else if graph.Deps[from] != nil {
 		delete(graph.Deps[from], to)
 	}
@@ -444,6 +451,16 @@ func createTaskWithDir(dir string, opts GlobalOptions, lockPath, eventsPath, epi
 		uuid, err := newUUID()
 		if err != nil {
 			return err
+		}
+		if !isEpic && epicID != "" {
+			// Tasks of epics that depend on this epic wait for every child of it,
+			// the new one included: refuse a membership that closes a waits-for cycle.
+			graph.Tasks[id] = &Task{ID: id, EpicID: epicID, State: stateTodo}
+			cyclic := hasWaitsForCycle(graph)
+			delete(graph.Tasks, id)
+			if cyclic {
+				return fmt.Errorf("task in epic %s would create a dependency cycle (through epic dependencies)", epicID)
+			}
 		}
 		now := time.Now().UTC()
 		payload := NewTaskEvent{
